@@ -3,7 +3,7 @@
    by the correspondence families fe / be / sess against Spec.FeSpec and
    Spec.BeSpec; the theorems below are its model-level parts.) *)
 From VV Require Import Base.Bits Base.Rt Base.Val Gen.GenConsts Gen.GenLayout Gen.GenFns Gen.GenArms
-  Model.Transport Model.Frontend Model.BeServer Proofs.FeProofs Proofs.BeProofs Proofs.TableProofs.
+  Model.Transport Model.Frontend Model.BeServer Proofs.FeProofs Proofs.BeProofs Proofs.TableProofs Proofs.CodecProofs Proofs.E2EProofs.
 Open Scope N_scope.
 
 (* calls rejected locally put nothing on the wire and leave the endpoint's state unchanged *)
@@ -28,3 +28,34 @@ Theorem C02_at_most_one_reply : forall cfg s o h files size buf,
   sent_ok h (snd (dispatch cfg s o h files size buf)).
 Proof. exact dispatch_sent_ok. Qed.
 Print Assumptions C02_at_most_one_reply.
+
+(* end to end over the regenerated codecs and the request-server model, for ALL values that fit the fields: the body a
+   frontend call writes, dispatched by the server, makes the handler see exactly the caller's arguments *)
+Theorem C02_set_vring_num_end_to_end : forall cfg s o idx num fl,
+  idx < 2 ^ 32 -> num < 2 ^ 32 -> req_flags_ok fl ->
+  o_calls (snd (dispatch cfg s o (VhostUserMsgHeader_new R FrontendReq_SET_VRING_NUM fl 8) None 8
+                         (VhostUserVringState_write {| VhostUserVringState_index := idx; VhostUserVringState_num := num |})))
+  = [call "set_vring_num" [VN idx; VN num]].
+Proof. exact set_vring_num_end_to_end. Qed.
+Print Assumptions C02_set_vring_num_end_to_end.
+Theorem C02_set_vring_base_end_to_end : forall cfg s o idx num fl,
+  idx < 2 ^ 32 -> num < 2 ^ 32 -> req_flags_ok fl ->
+  o_calls (snd (dispatch cfg s o (VhostUserMsgHeader_new R FrontendReq_SET_VRING_BASE fl 8) None 8
+                         (VhostUserVringState_write {| VhostUserVringState_index := idx; VhostUserVringState_num := num |})))
+  = [call "set_vring_base" [VN idx; VN num]].
+Proof. exact set_vring_base_end_to_end. Qed.
+Print Assumptions C02_set_vring_base_end_to_end.
+Theorem C02_set_features_end_to_end : forall cfg s o v fl,
+  v < 2 ^ 64 -> req_flags_ok fl ->
+  o_calls (snd (dispatch cfg s o (VhostUserMsgHeader_new R FrontendReq_SET_FEATURES fl 8) None 8
+                         (VhostUserU64_write {| VhostUserU64_value := v |})))
+  = [call "set_features" [VN v]].
+Proof. exact set_features_end_to_end. Qed.
+Print Assumptions C02_set_features_end_to_end.
+Theorem C02_set_protocol_features_end_to_end : forall cfg s o v fl,
+  v < 2 ^ 64 -> req_flags_ok fl ->
+  o_calls (snd (dispatch cfg s o (VhostUserMsgHeader_new R FrontendReq_SET_PROTOCOL_FEATURES fl 8) None 8
+                         (VhostUserU64_write {| VhostUserU64_value := v |})))
+  = [call "set_protocol_features" [VN v]].
+Proof. exact set_protocol_features_end_to_end. Qed.
+Print Assumptions C02_set_protocol_features_end_to_end.
